@@ -140,7 +140,8 @@ class Session:
             return
 
         try:
-            secret = secret_list[0]
+            # SSL 3.0 - TLS 1.2 start from the CLIENT_RANDOM (or RSA) line, wherever it stands among the lines of this connection
+            secret = next((s for s in secret_list if s.label in ("CLIENT_RANDOM", "RSA")), secret_list[0])
         except IndexError:
             logging.error(f"Missing Secrets\n"
                           f"Server IP: {self.binary_to_ip(self.server_ip)}\n"
